@@ -621,9 +621,11 @@ func (c *Client) lockWrite(quit <-chan struct{}) (net.Conn, error) {
 			case !ok:
 				return nil, ErrClosed
 			case conn == connDown:
+				verifPoint("lockWrite.token")
 				c.writeSem <- connDown // unlock
 				return nil, ErrDown
 			case conn == connPending:
+				verifPoint("lockWrite.token")
 				c.writeSem <- connPending // unlock
 				break
 			default:
